@@ -154,6 +154,11 @@ impl<'a> Rewriter<'a> {
                 p.used = true;
                 let _ = write!(bs, "\nproof {{\n{}}}\n", p.text);
             }
+            if p.anchor == key && p.mode == "rawloopstart" {
+                // ghost declarations that must stay in scope for the whole loop body
+                p.used = true;
+                let _ = write!(bs, "\n{}\n", p.text);
+            }
             if p.anchor == key && p.mode == "loopend" {
                 p.used = true;
                 let _ = write!(be, "\nproof {{\n{}}}\n", p.text);
@@ -699,10 +704,29 @@ impl<'r, 'a> Collector<'r, 'a> {
         }
         let key = self.rw.next_key("R3");
         let (iter, hdr, bs, be) = self.rw.loop_parts(&key);
-        let pat = self.rw.text(&cl.inputs[0]).to_string();
-        let recv = self.render(&map.receiver);
+        let mut pat = self.rw.text(&cl.inputs[0]).to_string();
+        let mut recv = self.render(&map.receiver);
         let body = self.render(&cl.body);
-        let push = if is_result { format!("{pat_ident}.push(({body})?);") } else { format!("{pat_ident}.push({body});") };
+        let mut push = if is_result { format!("{pat_ident}.push(({body})?);") } else { format!("{pat_ident}.push({body});") };
+        // R3e: `ITER.enumerate().map(|(i, p)| B)`: the index becomes an explicit usize counter
+        // declared before the loop and incremented after the push (what Enumerate::next does)
+        if let Some(en) = is_method(&map.receiver, "enumerate") {
+            let (i_name, p_name) = match &cl.inputs[0] {
+                syn::Pat::Tuple(t) if t.elems.len() == 2 => match (&t.elems[0], &t.elems[1]) {
+                    (syn::Pat::Ident(a), syn::Pat::Ident(b)) if a.by_ref.is_none() && b.by_ref.is_none() => (a.ident.to_string(), b.ident.to_string()),
+                    _ => die("unsupported", &format!("{}: R3e side condition: closure pattern is not `(i, x)`", self.rw.fn_path)),
+                },
+                _ => die("unsupported", &format!("{}: R3e side condition: closure pattern is not `(i, x)`", self.rw.fn_path)),
+            };
+            if !en.args.is_empty() {
+                return None;
+            }
+            recv = self.render(&en.receiver);
+            pat = p_name;
+            push = format!("{push} {i_name} += 1;");
+            self.rw.log.push(format!("R3e enumerate() index `{i_name}` -> explicit counter in loop {key}"));
+            return Some(format!("let mut {pat_ident}: {vec_ty} = Vec::new(); let mut {i_name}: usize = 0; for {pat} in {iter}{recv} {hdr}{{ {bs}{push} {be}}}"));
+        }
         self.rw.log.push(format!("R3{} let {pat_ident} = ..map(..).collect() -> loop {key}", if is_result { "r" } else { "" }));
         Some(format!("let mut {pat_ident}: {vec_ty} = Vec::new(); for {pat} in {iter}{recv} {hdr}{{ {bs}{push} {be}}}"))
     }
